@@ -66,7 +66,7 @@ class Evidence:
         r = q.result
         self.queries.append({'name': q.name, 'role': role, 'status': r.status, 'secs': r.secs, 'rss_mb': r.rss_kb // 1024,
                              'checks': r.n_checks, 'failed': r.n_failed, 'cached': r.cache_hit, 'note': r.note[:300],
-                             'sat_vars': r.vars, 'sat_clauses': r.clauses})
+                             'sat_vars': r.vars, 'sat_clauses': r.clauses, 'ssa_steps': r.steps, 'vccs_after_simplification': r.vccs})
         self.solver_secs += r.secs
         self.peak_rss_mb = max(self.peak_rss_mb, r.rss_kb // 1024)
         if r.cache_hit:
